@@ -87,7 +87,7 @@ def run(ctx):
               'hook replace.afterRemoveOld', 'hook tombstone.commit.renamed', 'hook delete.afterTombstones', 'torn WAL append of Write',
               'Crash step']
     missing = [p for p in needed if not any(k.startswith(p) for k in points)]
-    if missing:
+    if missing and all(x.get('ok') for x in res):     # (a failing case ends early: the verdict comes first)
         raise vlib.Inconclusive(f'vacuity guard: no crash image at {missing} (points seen: {sorted(points)})')
     ctx.exhaustive = False
     ctx.extra_cov['generation'] = stats
